@@ -1,11 +1,16 @@
 #!/bin/bash
-# Runs every (patch, property) pair of selftest/mutants.txt [and selftest/seeded.txt]; prints DETECTED / MISSED per pair.
-cd "$(dirname "$0")"; tier=${1:-quick}; miss=0
+# Sensitivity suite: runs every (patch, property, tier) triple of selftest/mutants.txt (reverse patches of the "fix:" commits = the real
+# defects of the original tree) and selftest/seeded.txt (changes seeded by sub-agents) against a scratch copy of /repo's sources and
+# writes selftest/RESULTS.md.  DETECTED = the check exited 1 with a VIOLATION line; anything else is listed as MISSED(<exit code>).
+cd "$(dirname "$0")"; out=RESULTS.md.tmp; : > $out
+echo "| change | property | tier | result |" >> $out; echo "|---|---|---|---|" >> $out
 for list in mutants.txt seeded.txt; do [ -f $list ] || continue
-  grep -v '^#' $list | while read patch prop rest; do [ -z "$patch" ] && continue
-    f=mutants/$patch; [ -f "$f" ] || f=../seeded/$patch
-    SELFTEST_TAIL=1 ./selftest.sh "$f" $prop $tier > /tmp/selftest.$$.log 2>&1; rc=$?
-    if [ $rc -eq 1 ]; then echo "DETECTED $prop $patch"; else echo "MISSED($rc) $prop $patch"; fi
+  grep -v '^#' $list | while read patch prop tier only; do [ -z "$patch" ] && continue
+    f=mutants/$patch; [ -f "$f" ] || f=../seeded/$patch; tier=${tier:-quick}
+    VERIF_ONLY="$only" SELFTEST_TAIL=3 ./selftest.sh "$f" $prop $tier > /tmp/selftest.$$.log 2>&1; rc=$?
+    what=$(grep -m1 "class=" /tmp/selftest.$$.log | sed 's/ detail=.*//; s/^ *//')
+    if [ $rc -eq 1 ]; then res="DETECTED ($what)"; else res="MISSED($rc)"; fi
+    echo "$res $prop $tier $patch"; echo "| ${patch%/patch.diff} | $prop | $tier | $res |" >> $out
   done
 done
-rm -f /tmp/selftest.$$.log
+mv $out RESULTS.md; rm -f /tmp/selftest.$$.log
